@@ -2,6 +2,7 @@ package props
 
 import (
 	"go/token"
+	"go/types"
 
 	"golang.org/x/tools/go/ssa"
 
@@ -114,8 +115,18 @@ func inSlotWrapper(c *chk.Ctx, ins ssa.Instruction) bool {
 
 // slotOwnerOf: the Response whose slot a channel operand / wrapper receiver
 // belongs to: the base of the outermost field selection.
-func slotOwnerOf(v ssa.Value) ssa.Value {
-	for i := 0; i < 4; i++ {
+func slotOwnerOf(c *chk.Ctx, v ssa.Value) ssa.Value {
+	isResp := func(x ssa.Value) bool {
+		t := x.Type()
+		if p, ok := t.Underlying().(*types.Pointer); ok {
+			t = p.Elem()
+		}
+		return types.Unalias(t) == types.Type(c.M.Response)
+	}
+	for i := 0; i < 6; i++ {
+		if isResp(v) {
+			return ir.NormCell(v)
+		}
 		switch x := v.(type) {
 		case *ssa.UnOp:
 			if x.Op != token.MUL {
@@ -123,19 +134,7 @@ func slotOwnerOf(v ssa.Value) ssa.Value {
 			}
 			v = x.X
 		case *ssa.FieldAddr:
-			// r.slot.ch → r.slot → r: stop at the Response (a pointer to the owner type)
 			v = x.X
-			if _, isFA := v.(*ssa.FieldAddr); !isFA {
-				// the base is the Response itself, unless it is loaded from a further field
-				// (a mailbox held by pointer)
-				u, isU := v.(*ssa.UnOp)
-				if !isU || u.Op != token.MUL {
-					return ir.NormCell(v)
-				}
-				if _, inner := u.X.(*ssa.FieldAddr); !inner {
-					return ir.NormCell(v)
-				}
-			}
 		case *ssa.Field:
 			v = x.X
 		default:
@@ -170,11 +169,11 @@ func slotWriteAt(c *chk.Ctx, ins ssa.Instruction) (msg, resp ssa.Value, ok bool)
 		if inSlotWrapper(c, ins) {
 			return nil, nil, false
 		}
-		return s.X, slotOwnerOf(s.Chan), true
+		return s.X, slotOwnerOf(c, s.Chan), true
 	}
 	if call, isCall := ins.(*ssa.Call); isCall {
 		if w, isW := slotWrapper(c, call.Call.StaticCallee()); isW && w.kind == "put" && w.msgIdx < len(call.Call.Args) && len(call.Call.Args) > 0 {
-			return call.Call.Args[w.msgIdx], slotOwnerOf(call.Call.Args[0]), true
+			return call.Call.Args[w.msgIdx], slotOwnerOf(c, call.Call.Args[0]), true
 		}
 	}
 	return nil, nil, false
@@ -191,4 +190,25 @@ func slotCloseAt(c *chk.Ctx, ins ssa.Instruction) bool {
 	}
 	w, isW := slotWrapper(c, call.Call.StaticCallee())
 	return isW && w.kind == "seal"
+}
+
+// freshOwner reports whether addr — the base of a field address — lies inside a
+// value that is being built and has not escaped yet: a fresh allocation, or a
+// field (of a field …) of one: `&Server{calls: callTable{wait: make(…)}}`
+// stores into &alloc.calls.wait.
+func freshOwner(c *chk.Ctx, base ssa.Value) bool {
+	for i := 0; i < 4; i++ {
+		if _, ok := ir.NormCell(base).(*ssa.Alloc); ok {
+			return true
+		}
+		if _, ok := c.P.Canon(base).(*ssa.Alloc); ok {
+			return true
+		}
+		fa, ok := base.(*ssa.FieldAddr)
+		if !ok {
+			return false
+		}
+		base = fa.X
+	}
+	return false
 }
